@@ -19,6 +19,7 @@ EXTENDS ClassModelImplOps
 CONSTANTS Parent,      \* topology: class id -> id of its superclass or ""
           Mode,        \* which declaration universe (see DeclU)
           QSels,       \* set of sets of qualifier indices; one is picked in Init
+          Vias,        \* creation paths explored: subset of {"api", "mof"}
           InstKeys,    \* keys of instances that may be created per class
           WithModify,  \* BOOLEAN: explore ModifyClass too
           AllFlags,    \* BOOLEAN: check all 27 x 4 flag combinations
@@ -73,17 +74,18 @@ DeclU(S) ==
             m \in {EDabs} \cup {ED(o, qm, xm) : o \in BOOLEAN,
                                  qm \in QSingle(S), xm \in QAll(S)}}
     [] Mode = "dyn" ->       \* creation order / modify / delete / instances
-         {Decl(cq, p, EDabs, EDabs) : cq \in {Q0, QOne(1, "1")},
+         {Decl(Q0, p, EDabs, m) :
             p \in {EDabs, ED(FALSE, QOne(1, "1"), Q0), ED(TRUE, Q0, Q0),
-                   ED(TRUE, QOne(1, "2"), Q0)}}
+                   ED(TRUE, QOne(1, "2"), Q0)},
+            m \in {EDabs, ED(FALSE, Q0, Q0)}}
 
 (* root classes declare the key property k *)
 KeyED == ED(FALSE, QOne(4, "1"), Q0)
 WithKey(sup, d) == IF sup = "" THEN [d EXCEPT !.el.k = KeyED] ELSE d
 
 (*---------------------------- events --------------------------------------*)
-MutEv(op, c, sup, d, r) ==
-  [op |-> op, via |-> "api", name |-> c, super |-> sup, d |-> d,
+MutEv(op, via, c, sup, d, r) ==
+  [op |-> op, via |-> via, name |-> c, super |-> sup, d |-> d,
    ok |-> r.ok, code |-> r.code, kind |-> IF r.ok THEN "ok" ELSE "cimerror"]
 GetEv(c, lo, iq, ico, hp, pl) ==
   [op |-> "Get", name |-> c, lo |-> lo, iq |-> iq, ico |-> ico, hp |-> hp,
@@ -108,29 +110,31 @@ Init == /\ store = <<>> /\ ii = {} /\ s = InitState /\ bad = {}
 
 Log(c) == hist' = IF GenDepth > 0 THEN Append(hist, c) ELSE hist
 
-Create(c, sup, d) ==
+Create(c, sup, d, via) ==
   /\ c \notin DOMAIN store
-  /\ LET r == ImplResolve(store, c, sup, d)
-         e == MutEv("Create", c, sup, d, r) IN
+  /\ LET r == ImplResolve(store, c, sup, d, via)
+         e == MutEv("Create", via, c, sup, d, r) IN
      /\ store' = IF r.ok THEN (c :> r.cls) @@ store ELSE store
      /\ bad' = JudgeHard(s, e)
      /\ s' = ApplyOp(s, e)
-     /\ Log([op |-> "Create", name |-> c, super |-> sup, d |-> d, key |-> 0])
+     /\ Log([op |-> "Create", via |-> via, name |-> c, super |-> sup, d |-> d,
+             key |-> 0])
   /\ UNCHANGED <<ii, qsel>>
 
-Modify(c, d) ==
+Modify(c, d, via) ==
   /\ c \in DOMAIN store
   /\ LET sup == store[c].super
          r == IF ~AllowModifyBusy /\ ImplChildren(store, c) # {}
               THEN RErr(E_CLASS_HAS_CHILDREN)
               ELSE IF ~AllowModifyBusy /\ \E x \in ii : x[1] = c
               THEN RErr(E_CLASS_HAS_INSTANCES)
-              ELSE ImplResolve(store, c, sup, d)
-         e == MutEv("Modify", c, sup, d, r) IN
+              ELSE ImplResolve(store, c, sup, d, via)
+         e == MutEv("Modify", via, c, sup, d, r) IN
      /\ store' = IF r.ok THEN [store EXCEPT ![c] = r.cls] ELSE store
      /\ bad' = JudgeHard(s, e)
      /\ s' = ApplyOp(s, e)
-     /\ Log([op |-> "Modify", name |-> c, super |-> sup, d |-> d, key |-> 0])
+     /\ Log([op |-> "Modify", via |-> via, name |-> c, super |-> sup, d |-> d,
+             key |-> 0])
   /\ UNCHANGED <<ii, qsel>>
 
 Delete(c) ==
@@ -143,7 +147,7 @@ Delete(c) ==
      /\ store' = st2 /\ ii' = ii2
      /\ bad' = JudgeHard(s, e)
      /\ s' = ApplyOp(s, e)
-     /\ Log([op |-> "Delete", name |-> c, super |-> "", d |-> Decl(Q0, EDabs, EDabs, EDabs),
+     /\ Log([op |-> "Delete", via |-> "", name |-> c, super |-> "", d |-> Decl(Q0, EDabs, EDabs, EDabs),
              key |-> 0])
   /\ UNCHANGED qsel
 
@@ -152,17 +156,17 @@ CreateInst(c, key) ==
   /\ ii' = ii \cup {<<c, key>>}
   /\ s' = ApplyOp(s, [op |-> "CreateInst", name |-> c, key |-> key, ok |-> TRUE])
   /\ bad' = {}
-  /\ Log([op |-> "CreateInst", name |-> c, super |-> "", d |-> Decl(Q0, EDabs, EDabs, EDabs),
+  /\ Log([op |-> "CreateInst", via |-> "", name |-> c, super |-> "", d |-> Decl(Q0, EDabs, EDabs, EDabs),
           key |-> key])
   /\ UNCHANGED <<store, qsel>>
 
 ExhNext ==
   /\ GenDepth = 0
-  /\ \/ \E c \in Classes, d \in DeclU(qsel) :
-           Create(c, Parent[c], WithKey(Parent[c], d))
+  /\ \/ \E c \in Classes, d \in DeclU(qsel), via \in Vias :
+           Create(c, Parent[c], WithKey(Parent[c], d), via)
      \/ /\ WithModify
-        /\ \E c \in Classes, d \in DeclU(qsel) :
-              c \in DOMAIN store /\ Modify(c, WithKey(store[c].super, d))
+        /\ \E c \in Classes, d \in DeclU(qsel), via \in Vias :
+              c \in DOMAIN store /\ Modify(c, WithKey(store[c].super, d), via)
      \/ \E c \in Classes : Delete(c)
      \/ \E c \in Classes, k \in InstKeys : CreateInst(c, k)
 
@@ -188,10 +192,12 @@ GenNext ==
   /\ \/ \E c \in Classes, sup \in (DOMAIN store) \cup {"", "Ghost"} :
            /\ Depth(store, sup) < 4
            /\ sup # "Ghost" \/ Chance(1)
-           /\ \E d \in {RndDecl(store, sup)} : Create(c, sup, d)
+           /\ \E d \in {RndDecl(store, sup)}, via \in {"api", "mof"} :
+                 Create(c, sup, d, via)
      \/ \E c \in DOMAIN store :
            /\ Chance(5)
-           /\ \E d \in {RndDecl(store, store[c].super)} : Modify(c, d)
+           /\ \E d \in {RndDecl(store, store[c].super)}, via \in {"api", "mof"} :
+                 Modify(c, d, via)
      \/ \E c \in DOMAIN store : Chance(2) /\ Delete(c)
      \/ \E c \in DOMAIN store, k \in InstKeys : Chance(4) /\ CreateInst(c, k)
 
